@@ -245,6 +245,8 @@ def transfer_p_impl(ctx, res, exe, ops, meta, impl):
                                   % (op, " ".join(L), " ".join(R), t, a, b, op, val),
                                   dict(kind="infer", op=op_line, impl=out, a=a, b=b, value=val), concrete=True, key=key)
     res.extra["infer_failures_at_excluded_points(|bound|>=2^62)"] = excluded_fail
+    print("C01 note: %d result(s) of the real infer() fail at operand bounds outside the hypothesis of infer_sound (|bound| >= 2^62-1: "
+          "signed overflow in the C++, counted, not reported)" % excluded_fail)
 
 
 def run_transfer(ctx, res, drv, exe, n_calc, n_infer):
@@ -1089,35 +1091,57 @@ def classify_program_violation(prog, plat, f, toks, run_events, args=None, all_r
                         return "fold-binary-unsigned-wrap"
         if node[1] == "-" and f["k"] == "I":
             if ety[1] == "u":
-                return "infer-minus-unsigned-wrap"
+                # F21: the reported Impossible bound is true of the mathematically exact a - b on the operand values of the failing
+                # run, that exact difference is negative (the unsigned subtraction wraps), and the wrapped value breaks the bound
+                a_id, b_id = node[2][1], node[3][1]
+                last = {}
+                for (i, v) in run_events:
+                    last[i] = v
+                    if i == f["occ"] and not fact_holds(f, v) and a_id in last and b_id in last:
+                        exact = plat.conv(ety, last[a_id]) - plat.conv(ety, last[b_id])
+                        if exact < 0 and fact_holds(f, exact) and plat.conv(ety, exact) == v:
+                            return "infer-minus-unsigned-wrap"
+                return None
             for sub in (node[2], node[3]):
                 o = prog["occ"].get(sub[1])
                 t = toks.get((o["line"], o["col"])) if o else None
                 if t and any(("possible" in v or "inconclusive" in v) and "intvalue" in v for v in t["values"]):
                     return "infer-minus-impossible-from-possible-ref"
-    if node[0] == "V" and all_runs is not None:
-        # F1a: x is assigned in a branch that does not enclose this read, and the reported fact is the truth on the executions
-        # that take one side of that branch only (it holds in some UB-free run and fails in another, and the two runs differ in
-        # whether that conditional assignment was the last write before the read)
+    if node[0] == "V" and all_runs is not None and f["k"] == "K" and f["b"] == "P":
+        # F1a: the reported Known value of x is exactly the value a particular assignment W stores, W and the last writer of the
+        # failing run are different statements, one of the two sits in an `if` branch that does not enclose this read, and there
+        # is a UB-free run in which W is the last writer before the read and the fact is true.  (Anything else on a variable
+        # read - Impossible values, bounds, a Known value no assignment stores - is reported as a violation.)
         x = node[1]
         enc = prog.setdefault("enc", enclosing_ifs(prog["body"]))
-        wr = set(id_ for id_, n in idx.items() if n[0] == "=" and n[2] == x or n[0] == "op=" and n[3] == x or n[0] == "++" and n[4] == x)
+        wr = dict((id_, n) for id_, n in idx.items() if n[0] == "=" and n[2] == x or n[0] == "op=" and n[3] == x or n[0] == "++" and n[4] == x)
         rpath = enc.get(f["occ"], ())
-        cond_wr = set(w for w in wr if len(enc.get(w, ())) > 0 and enc.get(w, ())[:len(enc.get(w, ()))] != rpath[:len(enc.get(w, ()))])
+        def conditional(w):
+            wp = enc.get(w, ())
+            return len(wp) > 0 and wp != rpath[:len(wp)] and all(br != 2 for (_, br) in wp)     # an if/else branch, not a loop body
+        def stored(evs, k):
+            """value the writer event k left in x"""
+            n = wr[evs[k][0]]
+            if n[0] == "++" and not n[3]:
+                return evs[k][1] + (1 if n[2] else -1)      # postfix: the event carries the old value
+            return evs[k][1]
         def last_writer_at_read(evs, want_ok):
-            """last writer of x before the first event of this read whose value (does / does not) satisfy the fact"""
+            """(writer id, stored value) of the last write to x before the first event of this read whose value does / does not
+            satisfy the fact; writer 0 = no write (parameter value)"""
             for j, (i, v) in enumerate(evs):
                 if i == f["occ"] and fact_holds(f, v) == want_ok:
                     for k in range(j - 1, -1, -1):
                         if evs[k][0] in wr:
-                            return evs[k][0]
-                    return 0
+                            return evs[k][0], stored(evs, k)
+                    return 0, None
             return None
-        if cond_wr:
-            bad = last_writer_at_read(run_events, False)
+        bad = last_writer_at_read(run_events, False)
+        if bad is not None:
             for (a2, outcome, evs2) in all_runs:
                 good = last_writer_at_read(evs2, True)
-                if good is not None and bad is not None and good != bad and (good in cond_wr or bad in cond_wr):
+                if good is None or good[0] == 0 or good[0] == bad[0]:
+                    continue
+                if good[1] == f["v"] and (conditional(good[0]) or (bad[0] != 0 and conditional(bad[0]))):
                     return "conditional-assignment-one-path-value"
     return None
 
@@ -1257,6 +1281,21 @@ def run_programs(ctx, res, drv, progs, nargs, fuel=400, chunk=20):
         def violated_at(occ, evs):
             return [g for g in fs if g["occ"] == occ and any(i == occ and not fact_holds(g, v) for (i, v) in evs)]
 
+        def violated_source(occ, evs, j, seen):
+            """a violated fact on a data-flow source of occurrence `occ` (event position j) in this run, or None"""
+            todo = list(sources(occ, evs, j))
+            while todo:
+                so, sj = todo.pop(0)
+                if so in seen:
+                    continue
+                vg = violated_at(so, evs)
+                if vg:
+                    return vg[0], sj
+                if idx.get(so, ("",))[0] in ("=", "op=", "++") and not any(g["occ"] == so for g in fs):
+                    seen.add(so)
+                    todo += sources(so, evs, sj)     # a statement without a mapped token (declaration): look through it
+            return None
+
         roots = {}
         for fi, f in enumerate(fs):
             desc = "%s %s%d on `%s` (occurrence %d, %s)" % ("Known" if f["k"] == "K" else "Impossible", "" if f["b"] == "P" else {"U": "<=", "L": ">="}[f["b"]],
@@ -1264,30 +1303,33 @@ def run_programs(ctx, res, drv, progs, nargs, fuel=400, chunk=20):
             if fi not in fail:
                 unexplained.append((prog, f, desc))
                 continue
-            args, val, evs, j = fail[fi]
-            # walk to a root cause: a violated fact none of whose sources carries a violated fact in the same run
-            cur, curj, seen = f, j, set()
-            while True:
-                seen.add(cur["occ"])
-                nxt = None
-                todo = list(sources(cur["occ"], evs, curj))
-                while todo and nxt is None:
-                    so, sj = todo.pop(0)
-                    if so in seen:
-                        continue
-                    vg = violated_at(so, evs)
-                    if vg:
-                        nxt = (vg[0], sj)
-                    elif idx.get(so, ("",))[0] in ("=", "op=", "++") and not any(g["occ"] == so for g in fs):
-                        seen.add(so)
-                        todo += sources(so, evs, sj)     # a statement without a mapped token (declaration): look through it
-                if nxt is None:
+            # a fact is a consequence of another violated fact only if in EVERY UB-free run in which it fails one of its data-flow
+            # sources carries a violated fact as well; a run in which it fails while all its sources are fine makes it a root of its own
+            own = None
+            for (args2, outcome2, evs2) in prs:
+                j2 = next((j2 for j2, (i, v) in enumerate(evs2) if i == f["occ"] and not fact_holds(f, v)), None)
+                if j2 is not None and violated_source(f["occ"], evs2, j2, {f["occ"]}) is None:
+                    own = (args2, evs2[j2][1], evs2, j2)
                     break
-                cur, curj = nxt
+            if own is not None:
+                args, val, evs, j = own
+                cur = f
+            else:
+                args, val, evs, j = fail[fi]
+                # walk to a root cause: a violated fact none of whose sources carries a violated fact in the same run
+                cur, curj, seen = f, j, set()
+                while True:
+                    seen.add(cur["occ"])
+                    nxt = violated_source(cur["occ"], evs, curj, seen)
+                    if nxt is None:
+                        break
+                    cur, curj = nxt
             rk = (cur["occ"], cur["k"], cur["b"], cur["v"])
             if rk not in roots:
                 rv = next(v for (i, v) in evs if i == cur["occ"] and not fact_holds(cur, v))
                 roots[rk] = dict(f=cur, args=args, val=rv, evs=evs, derived=0)
+            elif cur is f and own is not None:
+                roots[rk].update(args=args, val=val, evs=evs)      # prefer the run in which the fact is a root of its own
             if cur is not f:
                 roots[rk]["derived"] += 1
         for rk, r in roots.items():
